@@ -715,6 +715,16 @@ fn parse_define_arg(
 		{
 			let has_negative_sign = split[1].chars().next() == Some('-');
 
+			if split[1].len() == (if has_negative_sign { 1 } else { 0 })
+			{
+				report.error(
+					format!(
+						"invalid value for define `{}`",
+						name));
+
+				return Err(());
+			}
+
 			let maybe_value = syntax::excerpt_as_bigint(
 				None,
 				diagn::Span::new_dummy(),
